@@ -249,17 +249,37 @@ BagAddKey(keys, rk, val) ==
   IN  IF p > 0 THEN [keys EXCEPT ![p] = <<rk, Append(@[2], val)>>]
       ELSE Append(keys, <<rk, <<val>>>>)
 
-(* OptionBag.__init__: the first component of every item goes through the  *)
-(* section's key type (an illegal one is refused - see DESIGN D2).          *)
+(* ExtendedConfigLoader.addOption: "path/to/key=value"; a specifier without *)
+(* "=" or with an empty path component is refused when it is added.        *)
+RECURSIVE SplitOn(_, _)
+SplitOn(s, c) == LET p == IndexOf(s, c)
+                 IN  IF p = 0 THEN <<s>> ELSE <<Sub(s, 1, p - 1)>> \o SplitOn(From(s, p + 1), c)
+
+ParseSpec(spec) ==
+  LET e == IndexOf(spec, "=") IN
+  IF e = 0 THEN [ok |-> FALSE]
+  ELSE LET comps == SplitOn(Sub(spec, 1, e - 1), "/") IN
+       IF \E i \in 1..Len(comps) : comps[i] = <<>> THEN [ok |-> FALSE]
+       ELSE [ok |-> TRUE, path |-> [i \in 1..Len(comps) |-> Str(comps[i])], val |-> Str(From(spec, e + 1))]
+
+RECURSIVE ParseSpecs(_, _, _)
+ParseSpecs(specs, i, acc) ==
+  IF i > Len(specs) THEN [ok |-> TRUE, opts |-> acc]
+  ELSE LET p == ParseSpec(specs[i])
+       IN  IF ~p.ok THEN [ok |-> FALSE, opts |-> acc]
+           ELSE ParseSpecs(specs, i + 1, Append(acc, [path |-> p.path, val |-> p.val]))
+
+(* OptionBag.__init__: a one-component path is a key of this section and   *)
+(* goes through the section's key type; longer paths wait for a section.   *)
 RECURSIVE CookBag(_, _, _, _)
 CookBag(kt, opts, i, bag) ==
   IF i > Len(opts) THEN [e |-> NoErr, bag |-> bag]
-  ELSE LET o == opts[i]
-           r == KeyConvOf(kt, o.path[1])
-       IN  IF ~r.ok THEN [e |-> Err("conv", 0, "", o.path[1], "ValueError"), bag |-> bag]
-           ELSE IF Len(o.path) = 1
-                THEN CookBag(kt, opts, i + 1, [bag EXCEPT !.keys = BagAddKey(@, r.v, o.val)])
-                ELSE CookBag(kt, opts, i + 1, [bag EXCEPT !.sects = Append(@, o)])
+  ELSE LET o == opts[i] IN
+       IF Len(o.path) = 1
+       THEN LET r == KeyConvOf(kt, o.path[1])
+            IN  IF ~r.ok THEN [e |-> Err("conv", -1, "~option~", o.path[1], "ValueError"), bag |-> bag]
+                ELSE CookBag(kt, opts, i + 1, [bag EXCEPT !.keys = BagAddKey(@, r.v, o.val)])
+       ELSE CookBag(kt, opts, i + 1, [bag EXCEPT !.sects = Append(@, o)])
 
 BagHasKey(bag, rk) == bag.on /\ AssocIndex(bag.keys, rk, 1) > 0
 
@@ -294,12 +314,15 @@ Frame(rid) == [rid |-> rid, n |-> 0, secs |-> <<>>]
 TopType(S, m) == IF Len(m.ms) = 1 THEN S.top ELSE m.vocab[m.ms[Len(m.ms)].tname]
 Fail(m, e)    == [m EXCEPT !.out = e]
 
-LoadStart(S, rid, opts) ==
-  LET base == [ps |-> <<Frame(rid)>>,
+LoadStart(S, rid, specs) ==
+  LET ps   == ParseSpecs(specs, 1, <<>>)
+      opts == ps.opts
+      base == [ps |-> <<Frame(rid)>>,
                ms |-> <<NewMatcher(S.types, "", S.top, "", 0)>>,
                defs |-> <<>>, vocab |-> S.types, comps |-> S.comps, hl |-> <<>>,
                ev |-> <<<<"open", rid>>>>, out |-> [r |-> "run"]]
-  IN  IF opts = <<>> THEN base
+  IN  IF ~ps.ok THEN Fail(base, Err("syntax", -1, "~option~", "", "invalid configuration specifier"))
+      ELSE IF opts = <<>> THEN base
       ELSE LET b == CookBag(S.top.keytype, opts, 1, [on |-> TRUE, keys |-> <<>>, sects |-> <<>>])
            IN  IF IsErr(b.e) THEN Fail(base, b.e)
                ELSE [base EXCEPT !.ms[1].bag = b.bag]
